@@ -176,8 +176,11 @@ class IntersectionsMixin:
 
         def filterSeen(n):
             # use (precision - 1) digits to check whether we have already
-            # seen this value
-            key = f"%.{numPrecisionDigits - 1}f" % n[0]
+            # seen this pair of values
+            key = (
+                f"%.{numPrecisionDigits - 1}f" % n[0],
+                f"%.{numPrecisionDigits - 1}f" % n[1],
+            )
 
             if key in seen:
                 return False
